@@ -73,6 +73,7 @@ class Mirror:
         self.rewritten = set() # priors whose id Collection.__setitem__ overwrote
         self.poisoned = set()
         self.thawed_by_derive = set()
+        self.scrambled = set() # frozen objects whose caller edited a list a cached function returned, no model modified since
 
     def is_pm(self, v):
         return v[0] == "r" and v[1] < len(self.objs) and self.objs[v[1]].kind != "tuple"
@@ -127,6 +128,8 @@ class Mirror:
         if self.rewritten and any(l[0] == "p" and l[1] in self.rewritten
                                   for t in rs for _, l in self.objs[t].attrs):
             out.add("setitem-existing-key")
+        if rs & self.scrambled:
+            out.add("returned-list-edited-by-caller")
         return sorted(out)
 
     # -- pure queries -----------------------------------------------------------
@@ -449,6 +452,21 @@ class Mirror:
     def apply(self, op):
         """Returns (expected outcome or None when unconstrained, labels of this op)."""
         k = op[0]
+        if k == "scramble":
+            # reference semantics: the returned list belongs to the caller, nothing happens to the model.  The code hands
+            # out the list object stored in the frozen cache (only unique_prior_tuples / prior_tuples_ordered_by_id are
+            # rebuilt by cast_collection), which stays in use until some model of the process is modified
+            if self.objs[op[1]].frozen and op[2][1] != "unique":
+                self.scrambled.add(op[1])
+                return {"ok": None}, ["returned-list-edited-by-caller"]
+            return {"ok": None}, []
+        exp, labels = self.apply_(op)
+        if k not in ("query", "failwalk") and not (exp is not None and "exc" in exp):
+            self.scrambled.clear()          # an accepted modification / construction / copy: every frozen cache is dropped
+        return exp, labels
+
+    def apply_(self, op):
+        k = op[0]
         if k == "new":
             _, kind, cls, attrs, nitems = op
             if kind == "model" and any(self.refuses_label(v) for _, v in attrs):
@@ -546,8 +564,9 @@ class Mirror:
 # generator
 # ---------------------------------------------------------------------------
 class Gen:
-    def __init__(self, rng, dirty, max_ops, failwalk=False, ids=False, shape=None):
+    def __init__(self, rng, dirty, max_ops, failwalk=False, ids=False, shape=None, alias=False):
         self.rng, self.dirty, self.max_ops, self.failwalk, self.ids = rng, dirty, max_ops, failwalk, ids
+        self.alias = alias
         shape = shape or {"classes": CLASSES, "class_names": ["K0", "K1", "K2", "K3"], "bases": [None] * 4}
         self.classes = shape["classes"]
         pri = []
@@ -694,6 +713,11 @@ class Gen:
         r, m = self.rng, self.m
         pms = self.pms()
         x = r.random()
+        if self.alias and r.random() < 0.15:
+            o = r.choice([i for i in pms if m.objs[i].frozen] or pms)
+            rq = self.raw_query()
+            self.emit(["scramble", o, rq])
+            return ["query", o, rq] if r.random() < 0.5 else self.query(o)
         if x < 0.40:
             return self.query(r.choice(pms))
         if x < 0.52:
@@ -958,6 +982,14 @@ def scenario_cases():
              ["new", "model", 0, [["a", P(4)], ["b", P(0)]], 0], ["new", "model", 1, [["a", P(3)], ["b", P(0)], ["c", ["c", 7]]], 0],
              ["new", "coll", None, [["m", ["r", 2]], ["n", ["r", 1]], ["k", ["r", 3]], ["q", P(2)]], 0]]
     A = allq(4, [1, 2, 3, 4, 5, 6], [0, 1, 2, 3, 4, 2])
+    # the caller edits the lists it was handed by a frozen model (reverse, drop one entry) and asks again
+    raws = [q[2] for q in A if q[2][0] == "raw"]
+    ops = build + [["freeze", 4]]
+    for rq in raws[1:]:
+        ops += [["query", 4, rq], ["scramble", 4, rq], ["query", 4, rq]]
+    ops += A + [["scramble", 2, ["raw", "direct", "prior"]], ["query", 4, ["instance", [1, 2, 3, 4, 5, 6]]], ["query", 2, ["instance", [1, 2]]],
+                ["new", "model", 3, [["x", P(7)]], 0]] + A + [["unfreeze", 4], ["scramble", 4, ["raw", "pit", "prior"]]] + A
+    out.append(base(ops))
     out.append(base(build + A + [["freeze", 4]] + A + A[::-1] + A[7:] + A[:7] + allq(2, [1, 2], [1, 3]) + allq(3, [1, 2], [4, 0]) +
                     [["copy", 4]] + allq(5, [1, 2, 3, 4, 5, 6], [4, 3, 2, 1, 0, 2]) + A[::-1] + [["unfreeze", 4]] + A))
     return out
@@ -999,9 +1031,9 @@ def gen_cases(ctx):
                 cases.append(dict(c.get("case", c), origin="corpus", name=f, signature=c.get("signature")))
     for i in range(n):
         x = ctx.rng.random()
-        mode = "clean" if x < 0.55 else "stale" if x < 0.78 else "ids" if x < 0.90 else "poison"
+        mode = "clean" if x < 0.52 else "stale" if x < 0.75 else "ids" if x < 0.87 else "poison" if x < 0.95 else "alias"
         g = Gen(ctx.rng, mode in ("stale", "poison"), ctx.rng.choice([12, 20, 30, 40] + ([60] if thorough else [])),
-                failwalk=(mode == "poison"), ids=(mode == "ids"), shape=class_shape(ctx.rng))
+                failwalk=(mode == "poison"), ids=(mode == "ids"), shape=class_shape(ctx.rng), alias=(mode == "alias"))
         c = g.build()
         c["origin"] = mode
         cases.append(c)
@@ -1165,7 +1197,7 @@ def nontrivial(case):
         k = op[0]
         if k == "freeze":
             froze = True
-        elif froze and k in ("set", "setitem", "append", "del", "unfreeze", "copy", "restore", "failwalk", "derive"):
+        elif froze and k in ("set", "setitem", "append", "del", "unfreeze", "copy", "restore", "failwalk", "derive", "scramble"):
             changed = True
         elif k == "query" and froze and changed:
             return True
@@ -1319,6 +1351,11 @@ def cop(op):
     raise ValueError(op)
 
 
+def has_scramble(case):
+    """histories in which the CALLER edits a returned list have no counterpart in the model (lists are values there)"""
+    return any(op[0] == "scramble" for op in case["ops"])
+
+
 def coq_case(case, res):
     cl = clist([clist([cs(n) for n in names]) for names in case["classes"]])
     pr = clist(["(%d%%nat, ((%d)%%Z, (%d)%%Z))" % (p, lo, hi) for p, lo, hi in case["priors"]])
@@ -1430,6 +1467,9 @@ def run(ctx):
             ctx.hist("oracle-failure-class", ",".join(classes) or "none")
             ctx.failure("oracle", "op %d: %s" % (at, msg), key, classes=classes,
                         impl={"outs": [{k: v for k, v in rec.items() if k != "shadow"} for rec in r["outs"][max(0, at - 3):at + 1]]})
+        if has_scramble(c):
+            ctx.hist("oracle-only", "caller-edits-returned-list")
+            continue
         coq_cases.append(coq_case(c, r))
         ccases.append(coq_ccase(c, r))
         coq_idx.append(i)
